@@ -345,14 +345,14 @@ def generate(repo):
     end_reached!();
     let _ = %s;
     assert!(false, "RETURNED: get on a short buffer must panic");""" % (call_try, call_get)
-            out.append("%s// @h props=C10 tier=%s group=getters allow=in.function.bytes::panic_advance must_fail=in.function.bytes::panic_advance note=%s/%s_over_%s_shortfall\n#[kani::proof]\n#[kani::unwind(%d)]\n#[kani::stub(core::slice::index::slice_index_fail, stub_slice_index_fail)]\npub fn %s() {\n%s\n}\n" % (
+            out.append("%s// @h props=C10 tier=%s group=getters allow=@PANIC@ must_fail=@PANIC@ note=%s/%s_over_%s_shortfall\n#[kani::proof]\n#[kani::unwind(%d)]\n#[kani::stub(core::slice::index::slice_index_fail, stub_slice_index_fail)]\npub fn %s() {\n%s\n}\n" % (
                 cfgattr, tier, g, tg, im, unwind, name, body))
             n_h += 1
         if not fixed:
             # nbytes > 8: documented panic for both families
             for which, call in (("get", "b.%s(nb)" % g), ("try", "b.%s(nb)" % tg)):
                 name = "c10_%s_%s_too_wide" % (g, which)
-                out.append("""// @h props=C10,C13 tier=quick group=getters allow=in.function.bytes::panic_does_not_fit must_fail=in.function.bytes::panic_does_not_fit note=%s_nbytes>8
+                out.append("""// @h props=C10,C13 tier=quick group=getters allow=@PANIC@ must_fail=@PANIC@ note=%s_nbytes>8
 #[kani::proof]
 #[kani::unwind(14)]
 pub fn %s() {
